@@ -226,7 +226,7 @@ PROPS = {
         floors={"any": {"labels:format_kind": 180, "accessor_reads": 100000, "accessor_writes": 100000, "roundtrip_pixels": 500000, "footprint_bits": 100000}},
         exhaustive={"quick": True, "thorough": True},
         exhaustive_note="exhaustive over all pixel values of every format with bpp <= 16; 24/32-bpp and float formats are sampled (byte-lane sweeps + random)",
-        assumptions=["reference codec harness/ref_pixel.c written from the format macros of pixman.h", "yv12 is not exercised (planar layout); yuy2 only scanline-vs-pixel agreement"],
+        assumptions=["reference codec harness/ref_pixel.c written from the format macros of pixman.h", "YUV formats (sources only): decode against the 8-bit reader in float, scanline vs single-pixel reader from every start column, and accessor image vs directly addressed image"],
     ),
     "C08": dict(
         level="exploration", monitors={"mon_c08": {"sources": ["mon_c08.c", "vf_req.c", "ref_pixel.c", "vf.c"]}},
